@@ -400,8 +400,9 @@ func runShrexProduction(t *testing.T, rep *vh.Report, squares []eds.AccessorStre
 	outboundProbe(rep, b)
 }
 
-// outboundProbe records how many OUTBOUND streams of one shrex protocol the registered limits admit (the
-// comment on unlimitedOutbound promises no shrex-specific cap on outbound streams).
+// outboundProbe: the registered limits must not cap OUTBOUND streams (limits.go, unlimitedOutbound: "lifts any
+// shrex-specific cap on OUTBOUND streams"). rcmgr checks the total (inbound + outbound) of a scope separately
+// from the per-direction limits, so a finite `Streams` caps outbound whatever StreamsOutbound says.
 func outboundProbe(rep *vh.Report, b builtLimits) {
 	m, err := rcmgr.NewResourceManager(rcmgr.NewFixedLimiter(b.concrete))
 	if err != nil {
@@ -434,6 +435,11 @@ func outboundProbe(rep *vh.Report, b builtLimits) {
 			sc.Done()
 		}
 		res[shProtoName[q]] = map[string]any{"outbound_streams_to_one_peer_admitted": n, "refusal": firstErr}
+		if firstErr != "" {
+			// limits.go (unlimitedOutbound): "lifts any shrex-specific cap on OUTBOUND streams"; every other scope is unlimited here
+			violate(rep, "X_limits/shrex/limits/outbound-capped-by-total-streams/"+shProtoName[q],
+				fmt.Sprintf("outbound stream %d of protocol %s to one peer is refused by a shrex limit: %s", n+1, shProtoName[q], firstErr), res[shProtoName[q]])
+		}
 	}
 	rep.Set("shrex_outbound_probe", res)
 }
